@@ -230,7 +230,7 @@ func init() {
 		Shards: shards(8, 16),
 		Meta: func(tier string) rt.Meta {
 			return rt.Meta{Level: "exploration", MinEvals: 2000, MinDistinct: 20,
-				Rule:        "random trees on MemFS/OrefaFS bases; histories of 100 calls over all VFS and File methods issued through rofs.New(base), through every RoFile it returns and (one history in three, MemFS) through the file system returned by RoFS.Sub. Monitors: full base snapshot incl. mtimes before/after every call; mutating calls must fail with errors.Is(fs.ErrPermission); read-only calls must equal the same call on a twin base driven directly. Every tree holds a 32-128 KiB file and every slice a read returned is overwritten by the harness afterwards (a read handing out the base's storage shows as a changed base). Signature = wrapper/base | call kind[flags] | outcome; all are non-trivial (the base holds a random tree).",
+				Rule:        "random trees on MemFS/OrefaFS bases; histories of 100 calls over all VFS and File methods issued through rofs.New(base), through every RoFile it returns and (one history in three, MemFS) through the file system returned by RoFS.Sub. Monitors: full base snapshot incl. mtimes before/after every call; mutating calls must fail with errors.Is(fs.ErrPermission); read-only calls must equal the same call on a twin base driven directly. Every tree holds a 32-128 KiB file and every slice a read returned is overwritten by the harness afterwards (a read handing out the base's storage shows as a changed base). In one history in six the base carries the advisory read-only feature flag. Signature = wrapper/base | call kind[flags] | outcome; all are non-trivial (the base holds a random tree).",
 				Assumptions: []string{"Chdir/SetUMask forwarded to the base change view state, not the tree, and are applied to the twin as well"}}
 		},
 		Run: func(c *rt.Ctx) {
